@@ -14,13 +14,15 @@ EXPLAINED = {
 
 class C02(Property):
     id = "C02"
-    lean_module = "RosuModel.Props.C02"
+    lean_module = "RosuModel.Props.C02Slider"   # imports Props/C02.lean; both files are in namespace Rosu.C02
     namespace = "Rosu.C02"
     design_ref = "5.2"
     required_theorems = ["trim_cons_space", "kvSplit_kvLine", "kv_line_roundtrip", "int_display_parse", "int_display_clean",
                          "metadata_block_roundtrip", "colours_block_roundtrip", "colours_block_roundtrip_decoded",
                          "editor_block_roundtrip", "difficulty_block_roundtrip", "general_block_roundtrip", "events_block_roundtrip",
-                         "laws_satisfiable", "records_roundtrip", "circle_rt", "spinner_rt", "hold_rt", "samples_bank_info_rt", "samples_rt"]
+                         "laws_satisfiable", "records_roundtrip", "circle_rt", "spinner_rt", "hold_rt", "samples_bank_info_rt", "samples_rt",
+                         "path_string_roundtrip", "path_string_roundtrip_fresh", "slider_rt", "slider_rt_exact", "decodedNodes_get",
+                         "node_names_banks", "node_samples_rt", "slider_laws_satisfiable", "hitobjects_block_rt"]
     partial_theorems = {
         "editor_block_roundtrip / difficulty_block_roundtrip / general_block_roundtrip / events_block_roundtrip / records_roundtrip":
             "law-dependent: proved for every number codec satisfying CodecLaws (parse(print x) = x on the representable values; printed numbers are non-empty and made of "
@@ -36,8 +38,31 @@ class C02(Property):
             "The samples come back as convert_sound_type of the same hit-sound byte and the rebuilt bank info (samples_bank_info_rt, no law needed); samples_rt shows that this "
             "reproduces names and banks for sample lists in the decoder's own shape (Normal-with-bank or custom file first, then finish/whistle/clap sharing a specified addition bank) — "
             "that every decoded map's lists have this shape is not proved here",
-        "roundtrip": "NOT yet theorems (only `def roundtrip_statement : Prop`): slider lines (path strings, node samples), timing points and the "
-            "effective SV/kiai/scroll timelines (layer 5 of DESIGN 5.2), the assembly over all objects of a map, and therefore the property as a whole. These are evaluated on the implementation by the `rt` oracle "
+        "path_string_roundtrip": "law-dependent (CodecLaws for f32 + SliderRt.CoordLaws: an integral in-range f32 coordinate printed with Display and read with f64's FromStr truncates to the "
+            "same integer, and its text does not start with an ASCII letter; both shown satisfiable by the toy codec, slider_laws_satisfiable). Proved for every control-point list in the decidable "
+            "class SliderRt.RepPath: first point = origin and typed; every other point with representable integral absolute coordinates within ±131072 and (pos + p) − pos = p (a hypothesis on "
+            "the values, exact for integers below 2^24); types well-formed (a degree only on B-splines, positive, ≤ i32::MAX); a perfect-curve point followed by exactly one untyped point and "
+            "then a typed point or the untyped last point, not collinear as is_linear computes it (any other shape is decoded as Bezier/linear — never produced by the decoder); an untyped "
+            "point may repeat its predecessor's position only as the last point, directly before a typed point (positions identical), or inside a Catmull segment after an untyped point; a "
+            "typed point that the encoder may write implicitly (same type as the previous typed point, not perfect, followed by an untyped point) must not be Catmull (consecutive Catmull "
+            "segments: excluded by the property text), must equal itself under == (no NaN) and must NOT repeat its predecessor's position (finding F17). Every exclusion was replayed on the "
+            "real code: F17 shape fails as recorded; the index-0 relative [o(C), o, p] (from `C|100:100|100:100|200:100` at 100,100) also fails on the real code — the same finding F17 (a typed FIRST point repeated by "
+            "the second one; the oracle's predicate counts it on main); all shapes inside the class that were tried round-trip",
+        "slider_rt / slider_rt_exact": "law-dependent, one line at a time, any decoder state: the slider line decodes to a slider with the same start time, position (integral), combo data "
+            "(new_combo or-ed with the forcing rule), control points (appended to the state's curve_points, which is empty in every reachable state — slider_rt_exact takes that as a "
+            "hypothesis), repeat count (0..8999), the written length as the decoder stores it (max(len,0), absent below f64::EPSILON; slider_rt_exact: an expected length d with max(d,0)=d "
+            "and |d| ≥ EPSILON comes back exactly — hypotheses on the value; when the map has no expected length the computed curve length is written and comes back as Some(length): the "
+            "oracle's none ≡ some(natural length) reading), repeat_count + 2 node sample lists and velocity 1 (set later by the map-level processing). node_samples_rt: names and banks of a node "
+            "list in the decoder's own shape (Normal with a bank, then finish/whistle/clap sharing a bank) come back; a node's custom file name is not written (finding F18). The written "
+            "length must be representable and within ±131072 — a forced hypothesis and a real defect: replayed on the code, a slider without a length field whose computed curve is longer "
+            "than 131072 (`0,0,1000,2,0,L|131072:131072|-131072:-131072|131072:131072,1`) is written with that length and the line is rejected on re-read (object lost): finding F20, "
+            "kept as the explicit hypothesis RepSlider.distRep",
+        "hitobjects_block_rt": "law-dependent; conditional on every object of the map being representable (SliderRt.RepObject = RepCircle / RepSlider / RepSpinner / RepHold): the [HitObjects] "
+            "block read back from any decoder state appends one object per line, same kinds, same start times, same order, path buffer left empty; what else comes back per object is "
+            "circle_rt / slider_rt / spinner_rt / hold_rt",
+        "roundtrip": "NOT yet theorems (only `def roundtrip_statement : Prop`, `def hitobjects_roundtrip_statement : Prop`): that every object of a DECODED map is representable in the sense of "
+            "RepObject (outside F17/F18/F20), the map-level processing after the lines, timing points and the "
+            "effective SV/kiai/scroll timelines (layer 5 of DESIGN 5.2), and therefore the property as a whole. These are evaluated on the implementation by the `rt` oracle "
             "(preserved view compared field by field, floats by bits, curves included, ≤4 ulp only for slider velocity) and on the model by the three-way `rt` correspondence "
             "(M1, text, M2 all identical between model and code)",
     }
@@ -46,7 +71,8 @@ class C02(Property):
                   "line by line and gives the section back on the preserved view: all ten metadata fields incl. positive ids; combo and custom colours with alpha 255; editor; difficulty "
                   "inside the clamps; general with the encoder's SampleSet / CountdownOffset / SpecialStyle / flag rules; background file and breaks), and file level for those sections "
                   "(records_roundtrip: encode, UTF-8 bytes, reader, framing, Beatmap decoder, finalisation), and line level for circles, spinners and hold notes (circle_rt, spinner_rt, "
-                  "hold_rt, samples_bank_info_rt, samples_rt). Everything that prints floats is proved for every lawful number codec. Sliders and timing points are not yet theorems. Model of decoder and encoder compared three ways on every case (decoded map, encoded text character for character, re-decoded map); "
+                  "hold_rt, samples_bank_info_rt, samples_rt) and sliders (path_string_roundtrip over the decidable class RepPath, slider_rt, slider_rt_exact, node_samples_rt). "
+                  "Everything that prints floats is proved for every lawful number codec. Timing points and the per-map assembly of the object lines are not yet theorems. Model of decoder and encoder compared three ways on every case (decoded map, encoded text character for character, re-decoded map); "
                   "the property itself — preserved(decode(encode(decode x))) = preserved(decode x) for chronological inputs — is evaluated on the real code over the structured generator "
                   "(all sections, four modes, versions 3..128, all object kinds, multi-segment paths, same-time timing groups, hostile-but-accepted numerics), field-level mutations of the "
                   "bundled maps and the bundled maps themselves.")
